@@ -1,0 +1,16 @@
+//go:build verif
+
+package ina
+
+// Assumed (opaque) contracts: site-specific helpers read the URL/response they are given and
+// return freshly built URLs; they write nothing outside fresh objects except the URL's cached
+// document / body position.
+//@ func IsURL
+//@   opaque
+//@   modifies models.URL::*
+//@ func IsAPIURL
+//@   opaque
+//@   modifies models.URL::*
+//@ func ExtractMedias
+//@   opaque
+//@   modifies models.URL::*
